@@ -7,6 +7,7 @@ satisfiability and bijection theorems of `Props/C01/*.lean` (and C08, C10) speak
 -/
 import Lemmas.GenFam
 import Props.C01.Php
+import Props.C01.Bphp
 set_option linter.unusedSimpArgs false
 namespace Cnfgen.C01
 open Cnfgen Cnfgen.Vars Cnfgen.PyGen Cnfgen.GenVars Cnfgen.Fam Cnfgen.PyF Cnfgen.GenFam
@@ -66,5 +67,43 @@ theorem gen_php_unsat_iff (m n : Nat) (f : Bool) :
 /-- non-vacuity: `PigeonholePrinciple(2, 1)`: 2 variables, two unit clauses and one "at most one" -/
 example : PigeonholePrinciple 2 1 false false =
     Except.ok ⟨2, [.clause [1], .clause [2], .lin [1, 2] .le 1]⟩ := by rw [gen_php_eq_model]; rfl
+
+/-! ## BinaryPigeonholePrinciple -/
+
+/-- **`BinaryPigeonholePrinciple` of the source is `Fam.bphp` of the model**: `new_binary_mapping`, then
+`force_complete_mapping` (the bit strings `holes … 2^bits - 1` are forbidden for every pigeon) and
+`force_injective_mapping` (two pigeons never spell the same hole), through the translated `forbid` -/
+theorem gen_bphp_eq_model (pigeons holes : Int) :
+    BinaryPigeonholePrinciple pigeons holes = (Fam.bphp pigeons holes).map stateOf := by
+  unfold BinaryPigeonholePrinciple Fam.bphp
+  simp only [gen_non_negative_int_eq]
+  by_cases hp : pigeons < 0
+  · simp [hp]
+  · by_cases hh : holes < 0
+    · simp [hp, hh]
+    · have hneg : ¬ (pigeons < 0 ∨ holes < 0) := by omega
+      simp only [hp, hh, if_false, Py.ok_bind, hneg]
+      rw [new_binary_mapping_eq PyF.empty 0 rfl, if_neg hneg]
+      simp only [Py.ok_bind]
+      rw [force_complete_binary_eq, Py.ok_bind, force_injective_binary_eq]
+      simp [stateOf, bphpF, PyF.empty]
+
+/-- **binary PHP of the source is satisfiable exactly when the pigeons fit**, on the generated definition, for the
+abstract constraints and both renderings -/
+theorem gen_bphp_sat_iff (m n : Nat) :
+    ∃ s : FState, BinaryPigeonholePrinciple (m : Int) (n : Int) = Except.ok s ∧
+      s.numvar = ((m * clog2 n : Nat) : Int) ∧
+      ((∃ α, (formulaOf s).holds α = true) ↔ m ≤ n) ∧
+      ((∃ α, (formulaOf s).toCNF.holds α = true) ↔ m ≤ n) ∧
+      ((∃ α, (formulaOf s).toOPB.holds α = true) ↔ m ≤ n) := by
+  refine ⟨stateOf (bphpF m n), ?_, rfl, ?_, ?_, ?_⟩
+  · rw [gen_bphp_eq_model]
+    have h : ¬ ((m : Int) < 0 ∨ (n : Int) < 0) := by omega
+    simp [Fam.bphp, h]
+  · rw [formulaOf_stateOf]; exact bphp_sat_iff m n
+  · rw [formulaOf_stateOf, ← bphp_sat_iff m n]
+    simp only [Formula.toCNF_holds _ _ (bphp_wf m n)]
+  · rw [formulaOf_stateOf, ← bphp_sat_iff m n]
+    simp only [Formula.toOPB_holds _ _ (bphp_wf m n)]
 
 end Cnfgen.C01
